@@ -16,6 +16,7 @@ from pest.grammar import Rule
 from pest.grammar.expressions import OptimizedChoiceRepeat
 from pest.grammar.rule import SILENT
 from pest.grammar.rule import SILENT_ATOMIC
+from pest.grammar.rule import BuiltInRule
 
 from .expression import Expression
 from .optimizers.inliners import inline_builtin
@@ -95,6 +96,11 @@ class Optimizer:
                 continue
 
             for name, rule in rules.items():
+                if isinstance(rule, BuiltInRule):
+                    # Built-in rule objects are shared by every parser (and are
+                    # inlined where they are used), never rewrite them in place.
+                    continue
+
                 # TODO: some passes should only be applied to atomic rules
                 expr = rule.expression
 
